@@ -1,6 +1,7 @@
 package c06
 
 import (
+	"context"
 	"encoding/json"
 	"errors"
 	"fmt"
@@ -62,6 +63,8 @@ type hist struct {
 	c      *kit.Case
 	cfg    config
 	st     store
+	sts    []store  // bursts: all caches / cached conns the readers are spread over (sts[0] == st)
+	made   []string // ... and how each was constructed
 	db     *fakeDB
 	nodes  []*node
 	prefix string
@@ -72,6 +75,7 @@ type hist struct {
 	pend   []pendViol
 
 	taintAt                                   time.Time
+	taintCtxDead                              bool // an invalidation failed under a context that was cancelled once the call returned
 	hits, misses, invalidated, expired, fault int
 	staleReads, outageReads, dbErrReads       int
 }
@@ -91,6 +95,39 @@ func newHist(w *world, c *kit.Case, cfg config) *hist {
 		return h
 	}
 	h.db = &fakeDB{strPK: cfg.StrPK, q: map[string]int{}}
+	switch cfg.Flavour {
+	case "cache-node":
+		h.nodes = w.nodes[:1]
+		h.db.nf = errNF
+	case "cache-cluster":
+		h.nodes = w.nodes[1:]
+		h.db.nf = errNF
+	case "sqlc-node":
+		h.nodes = w.nodes[:1]
+		h.db.nf = sqlc.ErrNotFound
+	case "sqlc-cluster":
+		h.nodes = w.nodes[1:]
+		h.db.nf = sqlc.ErrNotFound
+	default:
+		panic("flavour " + cfg.Flavour)
+	}
+	var how string
+	h.st, how = h.mkStore(false)
+	h.sts, h.made = []store{h.st}, []string{how}
+	h.locateKeys()
+	return h
+}
+
+// mkStore builds one more cache / cached conn of the history's flavour over
+// the history's store nodes, the way applications build them (one per model
+// struct, all on the same Redis). alt selects the other constructor an
+// application may use for the same store: a one-node cluster configuration
+// (what goctl-generated models pass to sqlc.NewConn / cache.New) instead of
+// NewNodeConn / NewNode on the *redis.Redis. The cache flavours get the
+// barrier the application shares between its caches (var barrier); the sqlc
+// constructors take theirs from go-zero.
+func (h *hist) mkStore(alt bool) (store, string) {
+	w, cfg := h.w, h.cfg
 	ctx := hctx
 	if cfg.NoCtx {
 		ctx = nil
@@ -102,35 +139,28 @@ func newHist(w *world, c *kit.Case, cfg config) *hist {
 	if cfg.NE > 0 {
 		opts = append(opts, cache.WithNotFoundExpiry(cfg.NE))
 	}
-	cluster := func() cache.ClusterConf {
+	conf := func(nodes []*node) cache.ClusterConf {
 		var cc cache.ClusterConf
-		for _, n := range w.nodes[1:] {
-			cc = append(cc, cache.NodeConf{RedisConf: redis.RedisConf{Host: n.px.addr(), Type: redis.NodeType}, Weight: 100})
+		for _, n := range nodes {
+			cc = append(cc, cache.NodeConf{RedisConf: redis.RedisConf{Host: n.px.addr(), Type: redis.NodeType, NonBlock: true}, Weight: 100})
 		}
 		return cc
 	}
-	switch cfg.Flavour {
-	case "cache-node":
-		h.nodes = w.nodes[:1]
-		h.db.nf = errNF
-		h.st = &cacheStore{c: cache.NewNode(w.nodes[0].rds, barrier, cstat, errNF, opts...), db: h.db, ctx: ctx}
-	case "cache-cluster":
-		h.nodes = w.nodes[1:]
-		h.db.nf = errNF
-		h.st = &cacheStore{c: cache.New(cluster(), barrier, cstat, errNF, opts...), db: h.db, ctx: ctx}
-	case "sqlc-node":
-		h.nodes = w.nodes[:1]
-		h.db.nf = sqlc.ErrNotFound
-		h.st = &sqlStore{cc: sqlc.NewNodeConn(nil, w.nodes[0].rds, opts...), db: h.db, ctx: ctx}
-	case "sqlc-cluster":
-		h.nodes = w.nodes[1:]
-		h.db.nf = sqlc.ErrNotFound
-		h.st = &sqlStore{cc: sqlc.NewConn(nil, cluster(), opts...), db: h.db, ctx: ctx}
-	default:
-		panic("flavour " + cfg.Flavour)
+	switch {
+	case cfg.Flavour == "cache-node" && alt:
+		return &cacheStore{c: cache.New(conf(w.nodes[:1]), barrier, cstat, errNF, opts...), db: h.db, ctx: ctx}, "cache.New(one-node conf, shared barrier)"
+	case cfg.Flavour == "cache-node":
+		return &cacheStore{c: cache.NewNode(w.nodes[0].rds, barrier, cstat, errNF, opts...), db: h.db, ctx: ctx}, "cache.NewNode(rds, shared barrier)"
+	case cfg.Flavour == "cache-cluster":
+		return &cacheStore{c: cache.New(conf(w.nodes[1:]), barrier, cstat, errNF, opts...), db: h.db, ctx: ctx}, "cache.New(two-node conf, shared barrier)"
+	case cfg.Flavour == "sqlc-node" && alt:
+		return &sqlStore{cc: sqlc.NewConn(nil, conf(w.nodes[:1]), opts...), db: h.db, ctx: ctx}, "sqlc.NewConn(one-node conf)"
+	case cfg.Flavour == "sqlc-node":
+		return &sqlStore{cc: sqlc.NewNodeConn(nil, w.nodes[0].rds, opts...), db: h.db, ctx: ctx}, "sqlc.NewNodeConn(rds)"
+	case cfg.Flavour == "sqlc-cluster":
+		return &sqlStore{cc: sqlc.NewConn(nil, conf(w.nodes[1:]), opts...), db: h.db, ctx: ctx}, "sqlc.NewConn(two-node conf)"
 	}
-	h.locateKeys()
-	return h
+	panic("flavour " + cfg.Flavour)
 }
 
 // locateKeys finds the node of every key of this history by setting a probe
@@ -249,10 +279,27 @@ func (h *hist) dbRow(slot int) *row {
 
 // call runs one go-zero call with the in-op flag set (DEL commands arriving
 // meanwhile are attributed to the call, not to the cleaner).
-func (h *hist) call(fn func()) {
+//
+// With the context flavour of the API the call runs under a context of the
+// op's kind; what a caller does with its context once the call returned
+// (cancel it) happens right after the return.
+func (h *hist) call(o op, fn func()) {
+	after := func() {}
+	if !h.cfg.NoCtx {
+		var ctx context.Context
+		ctx, after = opCtx(o.Ctx, h.prefix)
+		h.st.use(ctx)
+		if o.Ctx != ctxBG {
+			h.c.Obs("calls_under_ctx_"+o.Ctx, 1)
+		}
+	}
 	h.w.inOp.Store(true)
 	fn()
 	h.w.inOp.Store(false)
+	after()
+	if !h.cfg.NoCtx {
+		h.st.use(hctx)
+	}
 }
 
 // staleEmitted caps the known-finding reports per case, so that they can never
